@@ -741,10 +741,17 @@ func checkMultiplySiblings(c *Ctx, r *Run) {
 		sameSrc bool
 		onCtx   bool
 	}
-	info := func(fn *ssa.Function) chiInfo {
+	info := func(top *ssa.Function) chiInfo {
 		var ci chiInfo
 		var digest *ssa.Call
-		allInstrs(fn, func(in ssa.Instruction) {
+		region := regionOf(top)
+		eachInstr := func(f func(fn *ssa.Function, in ssa.Instruction)) {
+			for _, g := range region {
+				g := g
+				allInstrs(g, func(in ssa.Instruction) { f(g, in) })
+			}
+		}
+		eachInstr(func(fn *ssa.Function, in ssa.Instruction) {
 			call, ok := in.(*ssa.Call)
 			if !ok {
 				return
@@ -765,13 +772,13 @@ func checkMultiplySiblings(c *Ctx, r *Run) {
 						}
 					}
 				})
-				ci.onCtx = containsField(paramFields(fn, call.Call.Args[0]), "recv.ctxHash")
+				ci.onCtx = containsField(paramFieldsUp(call.Call.Args[0]), "recv.ctxHash")
 			case "Digest":
 				digest = call
 			}
 		})
 		ci.sameSrc = true
-		allInstrs(fn, func(in ssa.Instruction) {
+		eachInstr(func(fn *ssa.Function, in ssa.Instruction) {
 			call, ok := in.(*ssa.Call)
 			if !ok {
 				return
